@@ -664,7 +664,8 @@ Section Main.
     plan_safe e zf pe to_dir rfs wfs pl = true ->
     has_ty e s (TNamed rp rn) ->
     bind (match pl_ctor pl with
-          | Some args => eval_ctor e zf U sn racc wpm s (zero_val e zf (TNamed wp wn)) args
+          | Some args => bind (eval_alloc e zf (zero_val e zf (TNamed wp wn)) wpm)
+                              (fun w0 => eval_ctor e zf U sn racc wpm s w0 args)
           | None => eval_alloc e zf (zero_val e zf (TNamed wp wn)) (pl_alloc pl)
           end)
          (fun d1 => bind (eval_stmts e zf U call wpkg to_dir racc wacc s d1 (pl_stmts pl))
